@@ -1,5 +1,6 @@
 """C13 (count-min sketch / TinyLFU estimates) and C14 (doorkeeper Bloom filter)."""
 from lib import *
+import math
 
 ROW = "sketch::CountMinRow"
 CMS = "sketch::CountMinSketch"
@@ -162,6 +163,10 @@ def check_sketch_cells(rep, fl, rule="R13.4", fold=True):
 
 def check_C13(rep, fl):
     facts = fl.facts
+    # "never lower than the number of times it was recorded": the second and later sightings reach the sketch only if the
+    # doorkeeper recognises the first - Bloom::contains probes exactly the positions Bloom::add set
+    import props_store
+    props_store.keep_rules(rep, fl, check_C14, {"R14.1"}, rename="R13.6")
     get = facts.body(ROW + "::get")
     inc = facts.body(ROW + "::increment")
     i = V("i")
@@ -308,6 +313,20 @@ def check_sketch_sizing(rep, fl, rule):
                 widths.append(norm(r[2][0]))
     depth = facts.const_value("sketch::DEPTH")
     rep.check(len(widths) == depth, rule, fl, new, "rows", "%d rows are allocated" % depth, "%d rows allocated, DEPTH is %d" % (len(widths), depth))
+    # the rows keep the width they were given: a row is built by CountMinRow::new only, and that is called from
+    # CountMinSketch::new only (a clear / reset that re-allocates rows with a width of its own voids the bound above)
+    makers, literals = set(), set()
+    for b_ in facts.bodies:
+        if not user_code(b_) or "::test" in b_.spath:
+            continue
+        r_ = strip_generics(b_.raw["root"])
+        if calls_to(b_, ROW + "::new"):
+            makers.add(r_)
+        if agg_nodes(b_, "CountMinRow"):
+            literals.add(r_)
+    extra_ = (makers - {CMS + "::new"}) | (literals - {ROW + "::new"})
+    rep.check(not extra_ and (CMS + "::new") in makers, rule, fl, ROW, "row allocation", "rows are allocated by CountMinSketch::new (through CountMinRow::new) only",
+              "rows are also (re)allocated in %s: their width is no longer the one the index bound was established for" % sorted(short(x) for x in extra_))
     # CountMinRow::new(width) allocates `width` bytes
     rn = facts.body(ROW + "::new")
     e = norm(return_expr(rn))
@@ -680,6 +699,90 @@ def bloom_cell(body):
     return offs, bit, base
 
 
+_FCONST = {"std::f64::consts::LN_2": math.log(2.0), "std::f64::consts::LN_10": math.log(10.0), "std::f64::consts::E": math.e, "std::f64::consts::PI": math.pi,
+           "std::f64::consts::LOG2_E": 1.0 / math.log(2.0), "std::f64::consts::LOG10_E": 1.0 / math.log(10.0), "std::f64::consts::LOG2_10": math.log2(10.0)}
+
+
+def monomial(e):
+    """A floating-point expression built from constants, variables, `*`, `/`, unary minus, ln / log2 / log10, powf / powi /
+    sqrt as  coefficient * prod(base ^ exponent): (coef, {base: exponent}), or None when it has another shape.  Two
+    spellings of the same formula have the same monomial (`-n * ln p / LN_2^2`, `n * (-log2 p) / LN_2`)."""
+    e = norm(e)
+    k = e[0]
+
+    def mul(a, b, sign=1):
+        if a is None or b is None:
+            return None
+        f = dict(a[1])
+        for base, ex in b[1].items():
+            f[base] = f.get(base, 0) + sign * ex
+        return (a[0] * (b[0] if sign == 1 else 1.0 / b[0]) if (sign == 1 or b[0] != 0) else None, {x: y for x, y in f.items() if abs(y) > 1e-12})
+    if k == "cstr":
+        try:
+            return (float(re.sub(r"_?f(32|64)$", "", str(e[1]).replace("_", ""))), {})
+        except ValueError:
+            return None
+    if k == "const" and isinstance(e[1], (int, float)) and not isinstance(e[1], bool):
+        return (float(e[1]), {})
+    if k == "named":
+        return (_FCONST[e[1]], {}) if e[1] in _FCONST else (1.0, {e: 1})
+    if k == "cast":
+        return monomial(e[2]) if e[1] in ("f64", "f32") else None
+    if k == "var" or k == "field":
+        return (1.0, {e: 1})
+    if k == "un" and e[1] == "Neg":
+        m = monomial(e[2])
+        return None if m is None else (-m[0], m[1])
+    if k == "bin" and e[1] in ("Mul", "Div"):
+        r = mul(monomial(e[2]), monomial(e[3]), 1 if e[1] == "Mul" else -1)
+        return None if r is None or r[0] is None else r
+    if k == "call" and len(e[2]) >= 1:
+        nm = e[1].rsplit("::", 1)[-1]
+        if nm in ("ln", "log2", "log10") and len(e[2]) == 1:
+            c = {"ln": 1.0, "log2": 1.0 / math.log(2.0), "log10": 1.0 / math.log(10.0)}[nm]
+            return (c, {("ln", norm(e[2][0])): 1})
+        if nm in ("powf", "powi") and len(e[2]) == 2:
+            m, p_ = monomial(e[2][0]), monomial(e[2][1])
+            if m is None or p_ is None or p_[1] or m[0] <= 0:
+                return None
+            return (m[0] ** p_[0], {b_: x_ * p_[0] for b_, x_ in m[1].items()})
+        if nm == "sqrt" and len(e[2]) == 1:
+            m = monomial(e[2][0])
+            return None if m is None or m[0] < 0 else (m[0] ** 0.5, {b_: x_ * 0.5 for b_, x_ in m[1].items()})
+    return None
+
+
+def check_bloom_formula(rep, fl, rule="R14.6"):
+    """The doorkeeper is dimensioned by the standard Bloom filter formulas: for n entries and target rate p,
+    m = -n ln p / (ln 2)^2 bits and k = ceil(ln 2 * m / n) = ceil(-log2 p) probes.  Decided symbolically: the two result
+    expressions are brought to coefficient * product-of-powers form and compared with the reference formulas."""
+    facts = fl.facts
+    b = facts.body("bbloom::calc_size_by_wrong_positives", required=False)
+    if b is None:
+        rep.missing(rule, fl, "bbloom::calc_size_by_wrong_positives")
+        return
+    e = norm(return_expr(b)) if return_expr(b) is not None else ("unknown",)
+    f = agg_fields(e) if e[0] == "agg" else {}
+    n, p_ = V(b.local_name.get(1, "num_entries")), V(b.local_name.get(2, "wrongs"))
+
+    def unwrap(x, ceil=False):
+        x = norm(x)
+        while x[0] == "cast" and x[1] in ("u64", "usize", "u32", "i64"):
+            x = norm(x[2])
+        if ceil and x[0] == "call" and x[1].rsplit("::", 1)[-1] == "ceil" and len(x[2]) == 1:
+            x = norm(x[2][0])
+        return x
+    ln2 = math.log(2.0)
+    want = {"entries": (-1.0 / (ln2 * ln2), {n: 1, ("ln", p_): 1}), "locs": (-1.0 / ln2, {("ln", p_): 1})}
+    for fld, (wc, wf) in sorted(want.items()):
+        got = monomial(unwrap(f.get(fld, ("unknown",)), ceil=(fld == "locs"))) if fld in f else None
+        ok = got is not None and abs(got[0] - wc) <= 1e-9 * abs(wc) and {k_: round(v_, 9) for k_, v_ in got[1].items()} == {k_: float(v_) for k_, v_ in wf.items()}
+        rep.check(ok, rule, fl, b, fld, "%s follows the Bloom filter formula (%s)" % (fld, "m = -n ln p / (ln 2)^2" if fld == "entries" else "k = ceil(ln 2 * m / n) = ceil(-log2 p)"),
+                  "%s is computed as %s: not %s - the filter is dimensioned for another false-positive rate than the target" % (
+                      fld, ("%.6g * %s" % (got[0], " * ".join("%s^%g" % (show(b_) if b_[0] != "ln" else "ln(%s)" % show(b_[1]), x_) for b_, x_ in sorted(got[1].items(), key=repr)))) if got else "an expression of another shape",
+                      "-n ln p / (ln 2)^2" if fld == "entries" else "ceil(-log2 p)"))
+
+
 def check_C14(rep, fl):
     facts = fl.facts
     add = facts.body(BLOOM + "::add")
@@ -799,7 +902,8 @@ def check_C14(rep, fl):
     check_bloom_sizing(rep, fl, so if so is not None else None)
     # ---- R14.6 recorded only -------------------------------------------------------------------
     cs = facts.body("bbloom::calc_size_by_wrong_positives")
-    rep.note("R14.6 (not armed): calc_size_by_wrong_positives calls: %s" % sorted({short(cs.callee_of(t)) for _, t in cs.calls()}))
+    rep.note("R14.6: calc_size_by_wrong_positives calls: %s" % sorted({short(cs.callee_of(t)) for _, t in cs.calls()}))
+    check_bloom_formula(rep, fl)
 
 
 def _ranges(xs):
